@@ -8,51 +8,55 @@ from simlib.models import Tie
 
 
 def compare(sc, build, model, out, desc, norm_got=None, max_ties=5, got_fn=None, want_fn=None, follow=False):
-    w, rec = multi.run_real(sc, build, follow=follow)
-    got_raw = rec.events_kv()
-    got = got_fn(rec) if got_fn else models.norm(norm_got(got_raw) if norm_got else got_raw)
+    """Real run (the same observable object subscribed once or twice, see multi.sub_times) against the reference
+    interpreter run once per subscription, with the tie policy.  Returns (w, first recorder, wants of the first)."""
+    w, recs = multi.run_real_multi(sc, build, follow=follow)
     want_fn = want_fn or (lambda eng: models.norm(eng.out))
     out.sim_time = sc["horizon"]
-    g = vt.grammar_violation(rec)
-    if g:
-        out.bad("grammar", "%s: %s" % (desc, g))
     if w.escaped:
         out.bad("escaped", "%s: %r" % (desc, w.escaped[0][2:]))
-    out.nontrivial = len(got) >= 2
+    first_wants = None
+    for i, (t0, rec) in enumerate(zip(multi.sub_times(sc), recs)):
+        tag = desc if i == 0 else "%s [second subscription of the same observable at t=%s]" % (desc, t0)
+        got_raw = rec.events_kv()
+        got = got_fn(rec) if got_fn else models.norm(norm_got(got_raw) if norm_got else got_raw)
+        g = vt.grammar_violation(rec)
+        if g:
+            out.bad("grammar", "%s: %s" % (tag, g))
+        if i == 0:
+            out.nontrivial = len(got) >= 2
+        else:
+            out.probes["second_subscription_checked"] += 1
 
-    def run(mask):
-        eng = evmodel.Engine(sc["sources"])
-        eng.now = float(sc["sub_t"])
-        model(eng, sc)
-        eng.run(sc["horizon"], mask)
-        return eng
+        def run(mask, t0=t0):
+            eng = evmodel.Engine(sc["sources"])
+            eng.now = float(t0)
+            model(eng, sc)
+            eng.run(sc["horizon"], mask)
+            return eng
 
-    try:
-        eng = run(None)
-        wants = [want_fn(eng)]
-    except Tie:
-        out.probes["tie_scenarios"] += 1
+        wants = None
         try:
-            e0 = run(0)
+            wants = [want_fn(run(None))]
         except Tie:
+            out.probes["tie_scenarios"] += 1
+            try:
+                k = run(0).nties
+                if k <= max_ties:
+                    wants = []
+                    for mask in range(1 << k):
+                        o = want_fn(run(mask))
+                        if o not in wants:
+                            wants.append(o)
+            except Tie:
+                wants = None
+        if wants is None:
             out.probes["tie_skipped"] += 1
-            return w, rec, None
-        k = e0.nties
-        if k > max_ties:
-            out.probes["tie_skipped"] += 1
-            return w, rec, None
-        wants = []
-        try:
-            for mask in range(1 << k):
-                o = want_fn(run(mask))
-                if o not in wants:
-                    wants.append(o)
-        except Tie:
-            out.probes["tie_skipped"] += 1
-            return w, rec, None
-    if got not in wants:
-        out.bad("model-mismatch", "%s: got %s, expected %s%s" % (desc, got[:12], wants[0][:12], (" (or %d other tie resolutions)" % (len(wants) - 1)) if len(wants) > 1 else ""))
-    return w, rec, wants
+        elif got not in wants:
+            out.bad("model-mismatch", "%s: got %s, expected %s%s" % (tag, got[:12], wants[0][:12], (" (or %d other tie resolutions)" % (len(wants) - 1)) if len(wants) > 1 else ""))
+        if i == 0:
+            first_wants = wants
+    return w, recs[0], first_wants
 
 
 def single(eng, sid, on_next, on_error=None, on_completed=None):
